@@ -9,8 +9,10 @@
       three pairwise distinct ids returned by an earlier `add_stroke_vertex` (`VertexId::INVALID`
       never reaches `add_triangle`), GIVEN, for the combination fixed width + `MiterClip` only, the
       hypotheses `ClipHyp` (`Lemmas/StrokeIdxClipGeo.lean`): the `sqrt` laws, the exact
-      `Line::intersection` with determinant guard `eps`, `line_width > 2·eps`, `miter_limit ≥ 1`,
-      merge threshold `> 0`.  Every other transcendental function, `is_nan`, the curve flattening
+      `Line::intersection` with determinant guard `eps ≥ 0`, `line_width ≥ 0`, `miter_limit ≥ 1`,
+      merge threshold `> 0` (the former hypothesis `line_width > 2·eps` is gone since /repo fix
+      ede203df of finding C05-miter-clip-unscaled-fallback: when the guard fires the side point now
+      stays where it is, `clip_fallback`).  Every other transcendental function, `is_nan`, the curve flattening
       stay arbitrary.  The proof is the LINKED window invariant of `Lemmas/StrokeIdxClipRun.lean`:
       the clipped front side point of a `MiterClip` join lies behind the join along the next edge, so
       the two dot products `flattened_step` tests add up to `≥ 2·|prev_edge|²`.
@@ -57,6 +59,18 @@ theorem stroke_indices_valid_sqrt (e : Env K) (store : Nat → List K) (evs : Li
     · exact stroke_indices_valid_miter_clip e store evs eps hvw (h hvw hj)
     · exact stroke_indices_valid_partial e store evs (Or.inr hj)
 
+/-- **`stroke_indices_valid_full`**: the statement of `stroke_indices_valid_sqrt` with the hypotheses
+spelled out.  Ordered field, ANY event list, ANY option record with `line_width ≥ 0` and
+`miter_limit ≥ 1` (the property's own preconditions, needed for fixed width + `MiterClip` only),
+the two `sqrt` laws, the exact `Line::intersection` with any determinant guard `eps ≥ 0`, a positive
+merge threshold: every triangle, when it is emitted, has three distinct ids returned before. -/
+theorem stroke_indices_valid_full (e : Env K) (store : Nat → List K) (evs : List (IdEv K)) (eps : K)
+    (hs0 : ∀ x : K, 0 ≤ x → 0 ≤ Transc.sqrt x) (hs : ∀ x : K, 0 ≤ x → Transc.sqrt x * Transc.sqrt x = x)
+    (hix : e.ix = lineIntersection eps) (heps : 0 ≤ eps) (hw : 0 ≤ e.o.lineWidth) (hml : 1 ≤ e.o.miterLimit)
+    (hthr : 0 < e.thr) :
+    VSteps (VertexOK e store (evIds evs)) (Out.empty 0) (runEvents e store evs).st.out :=
+  stroke_indices_valid_sqrt e store evs eps (fun _ _ => ⟨hs0, hs, hix, heps, hw, hml, hthr⟩)
+
 /-- the finished mesh and the per-vertex data, all joins: ids are positions in the vertex list; every
 triangle has three distinct valid ids; no `VertexId::INVALID`; every vertex's source names an
 endpoint / an edge of the input, its half width is the source's, `position = position_on_path +
@@ -92,16 +106,16 @@ theorem squareMergeThreshold_pos (tol lw : K) : 0 < squareMergeThreshold tol lw 
 hypothesis -/
 theorem clipHyp_new (o : Opts K) (eps : K)
     (hs0 : ∀ x : K, 0 ≤ x → 0 ≤ Transc.sqrt x) (hs : ∀ x : K, 0 ≤ x → Transc.sqrt x * Transc.sqrt x = x)
-    (heps : 0 ≤ eps) (hw : 2 * eps < o.lineWidth) (hml : 1 ≤ o.miterLimit) :
+    (heps : 0 ≤ eps) (hw : 0 ≤ o.lineWidth) (hml : 1 ≤ o.miterLimit) :
     ClipHyp (Env.new o (lineIntersection eps)) eps :=
   ⟨hs0, hs, rfl, heps, hw, hml, squareMergeThreshold_pos _ _⟩
 
 /-- **the public entry point `StrokeTessellator::tessellate`** (`tessellate_fw`: fixed width) with the
 environment it builds, all joins, all paths: whatever it returns is a valid emission sequence, given
-the `sqrt` laws, `line_width > 2·eps`, `miter_limit ≥ 1` -/
+the `sqrt` laws, `line_width ≥ 0`, `miter_limit ≥ 1` -/
 theorem stroke_indices_valid_tessellate_sqrt (o : Opts K) (eps : K) (evs : List (PathEv K))
     (hs0 : ∀ x : K, 0 ≤ x → 0 ≤ Transc.sqrt x) (hs : ∀ x : K, 0 ≤ x → Transc.sqrt x * Transc.sqrt x = x)
-    (heps : 0 ≤ eps) (hw : 2 * eps < o.lineWidth) (hml : 1 ≤ o.miterLimit)
+    (heps : 0 ≤ eps) (hw : 0 ≤ o.lineWidth) (hml : 1 ≤ o.miterLimit)
     (out : Out K) (ho : tessellateFw (Env.new o (lineIntersection eps)) evs = some out) :
     VSteps (VertexOK { Env.new o (lineIntersection eps) with o := { o with varWidth := false } }
       (fun _ => []) (evIds (assignIds evs 0))) (Out.empty 0) out := by
@@ -162,6 +176,15 @@ example (a : P ℝ) : ∃ lam : ℝ, lam ≤ 0 ∧
   exact clip_behind (fun x _ => Real.sqrt_nonneg x) (fun x hx => Real.mul_self_sqrt hx)
     (1 / 10 ^ 8) (1 / 2) 1 (by positivity) (by norm_num) (le_refl _) ⟨12 / 13, 5 / 13⟩ ⟨-12 / 13, 5 / 13⟩
     hpt hnt a (-1) (Or.inl ⟨rfl, by simp only [geom]; norm_num⟩) hex
+
+/-- the guard branch is not vacuous either: with a half width of `1e-9` the determinant `1e-9·(N·nt)`
+is within lyon's `1e-8` guard, `Line::intersection` answers `None` and the side point stays put -/
+example (a : P ℝ) (k : ℝ) :
+    (clipIntersections (lineIntersection (1 / 10 ^ 8)) a
+        ⟨-(1 / 10 ^ 9 * (0 : ℝ)), 1 / 10 ^ 9 * 1⟩ ⟨2, 0⟩ k).2 = ⟨-(1 / 10 ^ 9 * (0 : ℝ)), 1 / 10 ^ 9 * 1⟩ :=
+  clip_fallback (1 / 10 ^ 8) a ⟨2, 0⟩ ⟨1, 0⟩ (1 / 10 ^ 9) k (by
+    show |(1 / 10 ^ 9 : ℝ) * (2 * 1 + 0 * 0)| ≤ 1 / 10 ^ 8
+    rw [abs_of_nonneg (by positivity)]; norm_num)
 
 end Real
 
